@@ -723,3 +723,35 @@ mutant('C14-R7-pong-not-restored-under-backpressure', ['C14'], ['C14.R7|no-loss|
 mutant('C14-R7-settings-slot-taken-before-ready', ['C14'], ['C14.R7|no-loss|remote'],
        'Settings::poll_send empties the slot before the codec accepted the ACK',
        [('src/proto/settings.rs', '''        if let Some(settings) = self.remote.clone() {''', '''        if let Some(settings) = self.remote.take() {''')])
+
+# ---------------------------------------------------------------- boundary census (RB): off-by-one at reviewed comparisons
+mutant('RB-C05-recv-limit-off-by-one', ['C05'], ['C05.RB|boundary|counts::Counts::can_inc_num_recv_streams'],
+       'one peer stream over the advertised limit is admitted',
+       [(S + 'counts.rs', 'self.max_recv_streams > self.num_recv_streams', 'self.max_recv_streams >= self.num_recv_streams')])
+mutant('RB-C03-stream-window-off-by-one', ['C03', 'C09'], ['RB|boundary|recv::Recv::recv_data'],
+       'DATA that exactly fills the stream window is treated as a flow-control error',
+       [(S + 'recv.rs', 'if stream.recv_flow.window_size() < sz {', 'if stream.recv_flow.window_size() <= sz {')])
+mutant('RB-C15-cutoff-off-by-one', ['C15'], ['C15.RB|boundary|streams::Inner::recv_headers'],
+       'HEADERS for the stream equal to the GOAWAY cut-off are ignored',
+       [(S + 'streams.rs', '''        if id > self.actions.recv.max_stream_id() {
+            tracing::trace!(
+                "id ({:?}) > max_stream_id ({:?}), ignoring HEADERS",''', '''        if id >= self.actions.recv.max_stream_id() {
+            tracing::trace!(
+                "id ({:?}) > max_stream_id ({:?}), ignoring HEADERS",''')])
+mutant('RB-C18-small-frame-threshold-mismatch', ['C18'], ['C18.RB|boundary|counts::Counts::release_data_frame'],
+       'release_data_frame classifies a 256-byte frame differently from record_data_frame',
+       [(S + 'counts.rs', '''    pub fn release_data_frame(&mut self, payload_len: usize) {
+        if payload_len != 0 && payload_len < DEFAULT_DATA_FRAME_OVERHEAD_THRESHOLD {''', '''    pub fn release_data_frame(&mut self, payload_len: usize) {
+        if payload_len != 0 && payload_len <= DEFAULT_DATA_FRAME_OVERHEAD_THRESHOLD {''')])
+mutant('RB-C16-reclaim-reserved-off-by-one', ['C16'], ['C16.RB|boundary|prioritize::Prioritize::reclaim_reserved_capacity'],
+       'reclaim_reserved_capacity runs with nothing to reclaim',
+       [(S + 'prioritize.rs', 'if stream.send_flow.available().as_size() as usize > stream.buffered_send_data {', 'if stream.send_flow.available().as_size() as usize >= stream.buffered_send_data {')])
+mutant('RB-C12-payload-limit-off-by-one', ['C12'], ['C12.RB|boundary|codec::framed_write::Encoder::buffer'],
+       'a DATA payload of exactly max_frame_size is refused',
+       [('src/codec/framed_write.rs', 'if len > self.max_frame_size() {', 'if len >= self.max_frame_size() {')])
+mutant('RB-C11-size-update-off-by-one', ['C11', 'C10'], ['RB|boundary|hpack::decoder::Decoder::process_size_update'],
+       'a table size update equal to the advertised maximum is rejected',
+       [('src/hpack/decoder.rs', 'if new_size > self.last_max_update {', 'if new_size >= self.last_max_update {')])
+mutant('RB-C10-prefix-fit-off-by-one', ['C10'], ['C10.RB|boundary|hpack::encoder::encode_int_one_byte'],
+       'the value 2^N-1 is encoded in one byte (RFC 7541 5.1 requires a continuation)',
+       [('src/hpack/encoder.rs', 'value < (1 << prefix_bits) - 1', 'value <= (1 << prefix_bits) - 1')])
